@@ -271,4 +271,59 @@ MUTANTS = [
     Mutant("ungapped-loop-differs", LU, "        elif max_score - total_score > threshold:\n            # Score drops too low -> terminate alignment\n            break\n\n    # Return the total score and the number of aligned symbols at the\n    # point with maximum total score\n    score[0] = max_score",
            "        elif max_score - total_score >= threshold:\n            # Score drops too low -> terminate alignment\n            break\n\n    # Return the total score and the number of aligned symbols at the\n    # point with maximum total score\n    score[0] = max_score", "R6.sibling-loops-equal"),
     Mutant("downstream-uncontrolled", LG, "    if downstream:\n        score, downstream_traces = _align_region(", "    if True:\n        score, downstream_traces = _align_region(", "R5.direction-control"),
+    # ---- one seeded fault per rule that had none --------------------------------------
+    Mutant("linear-gt-ge", TT, "    if match_score > gap_left_score:\n        if match_score > gap_top_score:\n            trace = TraceDirectionLinear.MATCH",
+           "    if match_score >= gap_left_score:\n        if match_score > gap_top_score:\n            trace = TraceDirectionLinear.MATCH", "R1.argmax-flags"),
+    Mutant("linear-wrong-max", TT, "                TraceDirectionLinear.GAP_LEFT |\n                TraceDirectionLinear.GAP_TOP\n            )\n            max_score[0] = gap_left_score\n",
+           "                TraceDirectionLinear.GAP_LEFT |\n                TraceDirectionLinear.GAP_TOP\n            )\n            max_score[0] = match_score\n", "R1.argmax-flags"),
+    Mutant("linear-score-arithmetic", TT, "            trace = TraceDirectionLinear.MATCH\n            max_score[0] = match_score\n",
+           "            trace = TraceDirectionLinear.MATCH\n            max_score[0] = match_score + 1\n", "R1.comparison-only"),
+    Mutant("linear-difference-test", TT, "    elif match_score == gap_left_score:\n", "    elif match_score - gap_left_score == 0:\n", "R1.comparison-only"),
+    Mutant("dispatch-next-state", TT, "                next_indices.append((i_match, j_match))\n                next_states.append(TraceState.GAP_TOP_STATE)",
+           "                next_indices.append((i_match, j_match))\n                next_states.append(TraceState.MATCH_STATE)", "R2.affine-dispatch"),
+    Mutant("dispatch-affine-cell", TT, "                next_indices.append((i_gap_top, j_gap_top))\n                next_states.append(TraceState.MATCH_STATE)",
+           "                next_indices.append((i_gap_left, j_gap_left))\n                next_states.append(TraceState.MATCH_STATE)", "R2.affine-dispatch"),
+    Mutant("budget-not-counted-linear", TT, "                if curr_trace_count[0] < max_trace_count:\n                    curr_trace_count[0] += 1\n                    new_i, new_j = next_indices[k]\n                    follow_trace(",
+           "                if curr_trace_count[0] < max_trace_count:\n                    new_i, new_j = next_indices[k]\n                    follow_trace(", "R2.branch-budget"),
+    Mutant("budget-unguarded-affine", TT, "                if curr_trace_count[0] < max_trace_count:\n                    curr_trace_count[0] += 1\n                    new_i, new_j = next_indices[k]\n                    new_state = next_states[k]",
+           "                if True:\n                    curr_trace_count[0] += 1\n                    new_i, new_j = next_indices[k]\n                    new_state = next_states[k]", "R2.branch-budget"),
+    Mutant("linear-branch-shares-trace", TT, "                        np.copy(trace), trace_list, 0,\n", "                        trace, trace_list, 0,\n", "R2.branch-copies-trace"),
+    Mutant("affine-branch-shares-trace", TT, "                        np.copy(trace), trace_list, new_state,\n", "                        trace, trace_list, new_state,\n",
+           "R2.branch-copies-trace"),
+    Mutant("linear-flags-overlap", tracetab.PXD, "    GAP_LEFT = 2    # bit 2", "    GAP_LEFT = 3    # bit 2", "R2.flag-values"),
+    Mutant("affine-flag-duplicate", tracetab.PXD, "    GAP_LEFT_TO_GAP_LEFT = 16   # bit 5", "    GAP_LEFT_TO_GAP_LEFT = 8    # bit 5", "R2.flag-values"),
+    Mutant("dispatch-linear-cell", TT, "            if trace_value & TraceDirectionLinear.MATCH:\n                next_indices.append((i_match, j_match))",
+           "            if trace_value & TraceDirectionLinear.MATCH:\n                next_indices.append((i_gap_top, j_gap_top))", "R2.linear-dispatch"),
+    Mutant("dispatch-linear-flag-untested", TT, "            if trace_value & TraceDirectionLinear.GAP_LEFT:\n                next_indices.append((i_gap_left, j_gap_left))\n", "",
+           "R2.linear-dispatch"),
+    Mutant("loop-mask-foreign-flag", TT, "                state == TraceState.MATCH_STATE and trace_table[i,j] & (\n                    TraceDirectionAffine.MATCH_TO_MATCH |\n                    TraceDirectionAffine.GAP_LEFT_TO_MATCH |\n                    TraceDirectionAffine.GAP_TOP_TO_MATCH\n",
+           "                state == TraceState.MATCH_STATE and trace_table[i,j] & (\n                    TraceDirectionAffine.MATCH_TO_MATCH |\n                    TraceDirectionAffine.MATCH_TO_GAP_LEFT |\n                    TraceDirectionAffine.GAP_TOP_TO_MATCH\n", "R2.state-mask"),
+    Mutant("value-mask-drops-flag", TT, "                trace_value = trace_table[i,j] & (\n                    TraceDirectionAffine.MATCH_TO_GAP_LEFT |\n                    TraceDirectionAffine.GAP_LEFT_TO_GAP_LEFT\n                )",
+           "                trace_value = trace_table[i,j] & (\n                    TraceDirectionAffine.GAP_LEFT_TO_GAP_LEFT\n                )", "R2.state-mask"),
+    Mutant("band-lower-clip-off-by-one", BD, "    lower_diag = max(lower_diag, -len(seq1)+1)\n", "    lower_diag = max(lower_diag, -len(seq1))\n", "R3.band-clipping"),
+    Mutant("band-not-sorted", BD, "    lower_diag, upper_diag = min(band), max(band)\n", "    lower_diag, upper_diag = band[0], band[1]\n", "R3.band-clipping"),
+    Mutant("band-upper-diagonal-skipped", BD, "            min(code2.shape[0], seq_i + upper_diag+1)\n        ):\n            # Transform sequence index into table index\n",
+           "            min(code2.shape[0], seq_i + upper_diag)\n        ):\n            # Transform sequence index into table index\n", "R3.band-diagonals", qualname="_fill_align_table"),
+    Mutant("band-affine-unclamped", BD, "            max(0,              seq_i + lower_diag),\n            min(code2.shape[0], seq_i + upper_diag+1)\n        ):\n            j = seq_j - seq_i - lower_diag + 1\n",
+           "            seq_i + lower_diag,\n            min(code2.shape[0], seq_i + upper_diag+1)\n        ):\n            j = seq_j - seq_i - lower_diag + 1\n", "R3.band-diagonals",
+           qualname="_fill_align_table_affine"),
+    # the linear and the affine part of follow_trace must agree, hence both sites
+    Mutant("banded-top-not-shifted", TT, "                j_match, j_gap_left, j_gap_top = j  , j-1, j+1\n", "                j_match, j_gap_left, j_gap_top = j  , j-1, j\n",
+           "R3.banded-stencil-values", count=2),
+    Mutant("traceback-not-banded", BD, "            trace_table, True, i_start, j_start, 0,\n", "            trace_table, False, i_start, j_start, 0,\n", "R3.banded-traceback"),
+    Mutant("traceback-unclipped-band", BD, "            lower_diag=lower_diag, upper_diag=upper_diag\n        )\n", "            lower_diag=min(band), upper_diag=max(band)\n        )\n",
+           "R3.banded-traceback"),
+    Mutant("traceback-fixed-budget", BD, "            curr_trace_count=&curr_trace_count, max_trace_count=max_number,\n", "            curr_trace_count=&curr_trace_count, max_trace_count=1000,\n",
+           "R3.banded-traceback"),
+    Mutant("banded-start-state-g1", BD, "                    TraceState.GAP_LEFT_STATE, dtype=int)\n", "                    TraceState.GAP_TOP_STATE, dtype=int)\n", "R3.start-states"),
+    Mutant("banded-no-truncation", BD, "    trace_list = trace_list[:max_number]\n", "", "R4.max-number-truncated"),
+    Mutant("gapped-score-only-last-region", LG, "    if score_only:\n        return total_score\n    else:\n        if upstream and downstream:",
+           "    if score_only:\n        return score\n    else:\n        if upstream and downstream:", "R5.same-score-both-modes", qualname="align_local_gapped"),
+    Mutant("region-score-only-keeps-init", LG, "        return max_score - init_score, None\n", "        return max_score, None\n", "R5.same-score-both-modes", qualname="_align_region"),
+    Mutant("ungapped-seed-pair-not-scored", LU, "    total_score += score_matrix[code1[seq1_start], code2[seq2_start]]\n", "", "R5.same-score-both-modes",
+           qualname="align_local_ungapped"),
+    Mutant("upstream-offset-is-seed", LG, "            offset = np.array(seed) - 1\n", "            offset = np.array(seed)\n", "R5.upstream-trace-offset"),
+    Mutant("upstream-not-negated", LG, "                trace[non_gap_mask] *= -1\n", "", "R5.upstream-trace-offset"),
+    Mutant("uint8-reports-last-score", LU, "    score[0] = max_score\n    return i_max_score + 1", "    score[0] = total_score\n    return i_max_score + 1", "R6.sibling-results-equal"),
+    Mutant("uint8-length-off-by-one", LU, "    score[0] = max_score\n    return i_max_score + 1", "    score[0] = max_score\n    return i_max_score", "R6.sibling-results-equal"),
 ]
